@@ -1228,4 +1228,13 @@ def extract_default(
          """            and par["{"] == par["}"]
             and par["["] == par["]"]
             and par["("] == par[")"]""", """            and par["{"] + par["["] + par["("] == par["}"] + par["]"] + par[")"]""")]),
+    # ------------------------------------------------------------------ TABLE-argparse: percent escaping
+    dict(id="argparse-percent-unescaped-again", kind=B, props=["C04", "C06"], expect="TABLE-argparse", edits=[("ast_utils.py",
+         """                                (fill if word_wrap else identity)(doc).replace("%", "%%")""",
+         """                                (fill if word_wrap else identity)(doc)""")]),
+    dict(id="argparse-percent-not-halved", kind=B, props=["C04", "C06"], expect="TABLE-argparse", edits=[("emitter_utils.py",
+         """                get_value(key_word.value).replace("%%", "%")""", """                get_value(key_word.value)""")]),
+    dict(id="argparse-percent-escaped-before-wrap", kind=N, props=["C04", "C06"], expect="silent", edits=[("ast_utils.py",
+         """                                (fill if word_wrap else identity)(doc).replace("%", "%%")""",
+         """                                (fill if word_wrap else identity)(doc.replace("%", "%%"))""")]),
 ]
